@@ -85,7 +85,9 @@ class StateHist(Engine):
     budgets = {"quick": 30.0, "thorough": 420.0}
     rule = (
         "script = seeded tree of UPState root/make_child operations over 3-6 ground fluents interleaved with "
-        "observers (get_value on every ground fluent of every state after every operation, hash, ==, repr), work on a CLONE of the "
+        "observers (get_value on every ground fluent of every state after every operation, hash, ==, repr), observer / make_child calls "
+        "during which the problem's fluents_defaults fails at its n-th access, fluents added to the problem while states are alive "
+        "(one of them refused), work on a CLONE of the "
         "states' problem (write through its fluents_defaults, add_fluent, set_initial_value: no state may change) and "
         "rejected updates, under ancestor limit knob in {1,2,3,20,None} set either on UPState or on a subclass; "
         "non-trivial = at least one make_child took the condensing path (depth >= limit) AND at least one update "
